@@ -155,6 +155,12 @@ fn external_features(input: &Sexp, output: &Sexp, fs: &mut Vec<&'static str>) {
         if rest.len() >= 2 {
             fs.push("error-with-payload");
         }
+        // a predicate-list payload with at least two elements (their order is part of the tie)
+        if let Some(Sexp::L(items)) = rest.get(1) {
+            if items.len() >= 2 && items.iter().all(|x| pred(x).is_some()) {
+                fs.push("error-payload-list-ge-2");
+            }
+        }
     }
     if any(output, &|x| matches!(x.tag(), Some(("warnings", ws)) if ws.iter().any(|w| matches!(w, Sexp::L(v) if v.len() >= 2)))) {
         fs.push("warning-with-payload");
